@@ -128,5 +128,10 @@ pub fn run(tier: Tier) -> i32 {
             rep.merge(acc);
         });
     }
+    // hidden-state robustness: every history up to a small depth on live objects (no restore)
+    for slots in [1usize, 2] {
+        crate::live::live_pass(&rep, "C16", crate::live::Oracle::Recovery, slots, if tier.thorough() { 6 } else { 5 });
+    }
+    rep.assume("the snapshot-based closure merges states by the snapshot of all fields the hooks expose; state outside it is covered only by the live pass (all histories up to depth 5, thorough 6, over a 15-op alphabet)");
     rep.finish(true)
 }
